@@ -206,6 +206,14 @@ func runC18(c *run.Ctx) {
 		r.NonTrivial = lib.Output != "" && nondefault > 0
 	}
 	r.Hash = w.Hash() + "/" + class + "/" + strings.Join(flags, " ") + fmt.Sprint(isDiff)
+	if c.Idx%37 == 0 || len(r.Violations) > 0 {
+		cmd := "list"
+		if isDiff {
+			cmd = "diff"
+		}
+		r.SetSample(map[string]interface{}{"command": "k8snetpolicy " + cmd + " <dir(s)> " + strings.Join(flags, " "), "input_class": class,
+			"compared": "stdout of the child process vs string returned by the library, -f file vs stdout, exit status vs returned error"})
+	}
 }
 
 func compareCLI(r *run.CaseResult, cmd, flags, libPanic string, libErr bool, libErrText, libOut string, cli *observe.CLIResult, outFile string) {
